@@ -21,6 +21,9 @@ def specs(tier):
         J('lagsnap2+1:H2R1', 'lagging_snap', dict(n=2, observers=1), dict(H=2, R=1), dict(lag='o1')),
         J('lagsnap3+1-chunk64:H2R1', 'lagging_snap', dict(n=3, observers=1, chunk=64), dict(H=2, R=1), dict(lag='o1')),
         J('deposed-obs3+1:H1', 'deposed_obs', dict(n=3, observers=1), dict(H=1)),
+        # the connection to a read-only node breaks inside the leader's send call (several messages per call: chunks)
+        J('pending2+1-b8-sendfault:H1X1', 'pending', dict(n=2, observers=1, batch_bytes=8, send_faults=True), dict(H=1, X=1), dict(unrep=1),
+          extra_monitors=(MONS[0], ('mc.monitors', 'ExceptionMonitor', dict(prop='C18')))),
         J('fresh2+3:E1', 'fresh', dict(n=2, observers=3), dict(E=1)),
     ]
     if not q:
@@ -30,7 +33,7 @@ def specs(tier):
             J('steady3+2:H1S1X2R1', 'steady', dict(n=3, observers=2), dict(H=1, S=1, X=2, R=1), dict(k=1)),
         ]
     for j in js:
-        j['max_states'] = 250000 if q else 2000000
+        j['max_states'] = (60000 if 'sendfault' in j['name'] else 250000) if q else 2000000
     return js
 
 
@@ -39,4 +42,4 @@ def main(tier, seed, job_filter=None):
 
 
 def replay_file(path):
-    return jobs.replay_file_cluster(PROP, path, [dict(s, clauses=CL, extra_monitors=MONS) for s in specs('thorough')])
+    return jobs.replay_file_cluster(PROP, path, [dict({'clauses': CL, 'extra_monitors': MONS}, **s) for s in specs('thorough')])
